@@ -172,6 +172,20 @@ func genConversation(t *Tape, sc *Scenario, allowAbandon bool) *convX {
 	add(Step{Kind: kQuit, Data: []byte("QUIT\r\n"), Wait: w()})
 	nrep++
 done:
+	// a third of the corpus runs under a size limit that the largest message
+	// meets exactly (every message still fits): the limited reader's look-ahead
+	// for the end marker is then on the path of every cut near the end
+	if t.Chance(1, 3) {
+		max := 0
+		for _, tx := range x.Txns {
+			if len(tx.Msg) > max {
+				max = len(tx.Msg)
+			}
+		}
+		if max > 0 {
+			sc.Srv.MaxMsg = int64(max)
+		}
+	}
 	x.Total = off
 	x.NReply = nrep
 	cs := ConnScript{Lat: drawLat(t), SrvCaps: drawCaps(t), Steps: steps}
@@ -299,6 +313,9 @@ func classifyConv(sc *Scenario, h *History, st *Stats) string {
 		}
 		if tx.Abandon != "" {
 			st.Probes["transfer_abandoned_by_"+tx.Abandon]++
+		}
+		if sc.Srv.MaxMsg > 0 && int64(len(tx.Msg)) == sc.Srv.MaxMsg && x.Cut >= 0 && tx.End >= 0 && sent > tx.Start && sent < tx.End {
+			st.Probes["cut_inside_message_of_exactly_the_size_limit"]++
 		}
 		if x.Cut >= 0 && tx.End >= 0 && sent > tx.Start && sent < tx.End {
 			inside = true
